@@ -83,6 +83,37 @@ def check(ctx):
     ctx.ob("MPT-1", chk, "lengths of all columns are compared", chk.node, ok,
            "the compared lengths are those of every stored column" if ok else "the compared quantity is not the length of every column",
            nontrivial=False)
+    # nrow / ncol / the scalar predicate shared by the broadcast machinery
+    from ..forms import value_cases as _vcn
+    from ..pattern import pmatch as _pmn
+    nrowp = repo.fn(f"{DF}.nrow")
+    cs = _vcn(nrowp, "return")
+    sN = nrowp.params[0]
+    zero = [1 for _, leaf, f_ in cs if norm(leaf) == "0" and any((k == "F" and t == sN) or (k == "T" and t == f"not {sN}") for k, t in f_)]
+    col = [leaf for _, leaf, f_ in cs if norm(leaf) != "0"]
+    okn = bool(zero) and len(col) == 1 and (_pmn(f"{sN}[next(iter({sN}))].nrow", col[0]) is not None or
+                                           _pmn(f"{sN}[__].nrow", col[0]) is not None or _pmn("__.nrow", col[0]) is not None)
+    pc = cfg_of(nrowp).path_avoiding(lambda n: (n.ast is not None and n.kind in ("stmt", "test") and "_check_dimensions()" in norm(n.ast))
+                                     or (n.kind == "stmt" and isinstance(n.ast, ast.Return) and norm(n.ast.value) == "0"))
+    ctx.ob("MPT-1", nrowp, "nrow = 0 without columns, else a stored column's length after the uniformity check", nrowp.node, okn and pc is None,
+           "the row count is that of the stored columns, which are checked to agree first" if (okn and pc is None) else
+           "DataFrame.nrow does not return 0 for no columns / a stored column's nrow after _check_dimensions()",
+           clause="all columns have the same length (the frame's nrow)")
+    ul = repo.fn("dataiter.util.length")
+    cs = _vcn(ul, "return")
+    okl = {(norm(leaf), tuple(sorted((k, t) for k, t in f_ if t.startswith("is_scalar(") and k in ("T", "F")))) for _, leaf, f_ in cs} == \
+        {("1", (("T", f"is_scalar({ul.params[0]})"),)), (f"len({ul.params[0]})", (("F", f"is_scalar({ul.params[0]})"),))}
+    ctx.ob("STO-1", ul, "util.length: 1 for scalars, len(value) otherwise", ul.node, okl,
+           "a scalar counts as one row" if okl else "util.length is no longer `1 if is_scalar(value) else len(value)`: the constructor's "
+           "row count (max of the lengths) is wrong for scalars", clause="scalars and length-one values are broadcast to the row count")
+    sq = repo.fn("dataiter.util.sequencify")
+    cs = _vcn(sq, "return")
+    oks = any(norm(leaf) == f"[{sq.params[0]}]" and any(k == "T" and t == f"is_scalar({sq.params[0]})" for k, t in f_) for _, leaf, f_ in cs) and \
+        any(isinstance(n, ast.Raise) for n in body_nodes(sq.node))
+    ctx.ob("STO-1", sq, "util.sequencify: scalar -> [scalar]; unknown types rejected", sq.node, oks,
+           "a scalar becomes a one-element sequence (which DataFrameColumn then broadcasts)" if oks else
+           "util.sequencify no longer wraps exactly the is_scalar values / rejects other types",
+           clause="scalars and length-one values are broadcast to the row count")
     # ---------------------------------------------------------------- STO-1
     stores = [(f, c) for f, c in calls_in(init) if isinstance(c.func, ast.Attribute) and c.func.attr == "__setitem__"
               and isinstance(c.func.value, ast.Call) and norm(c.func.value.func) == "super"]
